@@ -4,7 +4,7 @@ from props import dmnfam
 
 INV = ['C15_Reuse', 'C15_ConfigMapNoSweep', 'C15_AtMostOnce']
 PROP = ['C15_StoredUntilDiscarded']
-MONPROP = PROP + ['C15_ResetDiscards', 'C15_InitStores', 'C15_StartStores']
+MONPROP = PROP + ['C15_ResetDiscards', 'C15_InitStores', 'C15_StartStores', 'C15_DiscardedStays']
 
 
 def check(run):
